@@ -35,6 +35,8 @@ NONTRIVIAL = {
     "c07": lambda i: isinstance(i, dict) and len(i.get("walks") or []) > 1,
     "c05": lambda i: isinstance(i, dict) and len(i.get("queries") or []) > 1,
     "c06": lambda i: isinstance(i, dict) and len(i.get("ops") or []) > 1,
+    "c16": lambda i: isinstance(i, dict) and sum(len(f.get("msgs") or []) for f in i.get("files", [])) > 0,
+    "c17": lambda i: isinstance(i, dict) and sum(len(f.get("msgs") or []) for f in i.get("files", [])) > 0,
     "c15": lambda i: isinstance(i, dict) and len(i.get("name") or []) > 1,
 }
 
@@ -180,5 +182,21 @@ PROPS = {
         "rule": "curated + seeded random protodesc-valid worlds built bidirectionally; TWO ASTs from the same request: A observed once per (entity, accessor) in canonical order (first-call oracle), B driven by a random history of 20-100 calls with repetitions over 31 (kind, accessor) pairs (file: imports/transitive/dependents/unused/messages/allMessages/enums/allEnums/services/exts/walk; message: 16 accessors incl. dependencies/dependents/imports/walk; enum: values/dependents; service: methods/imports/walk), biased towards the cached / derived ones; every result compared with A's and with the model; non-trivial = at least 2 ops",
         "level_text": "THEOREMS PENDING (level exploration until proved) and PARTIAL by nature: the model's only mutable state are the lazily filled caches; Go slice aliasing (listings built by append on internal slices) has no counterpart in a functional model and is covered by the correspondence run only. Phi_C06 = every result equals the first-call result on a fresh AST of the same request and what the request declares.",
         "level_note": "Trusted: protodesc validity; descriptor pointer identity; derived relations compared as sorted sequences (a duplicate stays visible).",
+    },
+    "C16": {
+        "engines": [("c16", "main")],
+        "lean": ["PgsVerif.Props.C16"],
+        "category": "exploration",
+        "rule": "collision probe world (getter collisions in both declaration orders, repeated protected names, oneof wrappers colliding once / twice / with a map entry / with an enum, oneof names colliding with fields) + seeded random protodesc-valid worlds whose identifiers are drawn per scope from adversarial pools (leading / trailing / doubled underscores, digits, mixed case, names equal to generated method names, foo / get_foo / get_get_foo, oneof members named like nested types), nesting depth <= 4, every file with a go_package; for every message, enum, value, field, oneof, oneof wrapper, service and method: pgsgo's prediction, protogen v1.23.0's name (the pinned protoc-gen-go run in-process) and whether the identifier is declared in the source internal_gengo.GenerateFile emits (parsed with go/parser); non-trivial = at least one message",
+        "level_text": "THEOREMS PENDING (level exploration until proved): two Lean transcriptions - pgsgo (camelCase, Name dispatch, joinChild, uniqueNames, OneofOption) and protoc-gen-go v1.23.0 (strs.GoCamelCase on dotted nested names, makeNameUnique, wrapper conflict loop) - each compared with its real counterpart; Phi_C16: prediction = protogen name = identifier declared in the generated source, for every entity.",
+        "level_note": "Trusted: 'what protoc-gen-go emits' is protogen + internal_gengo of the pinned protobuf-go v1.23.0 run as a library (no protoc binary); its Lean transcription is a second model tied to the real generator only by its own correspondence; identifiers are ASCII.",
+    },
+    "C17": {
+        "engines": [("c17", "main")],
+        "lean": ["PgsVerif.Props.C17"],
+        "category": "exploration",
+        "rule": "the C16 worlds (proto2/proto3 x every label x every scalar / enum / message kind x map keys and values x references to the same package, the same import path and foreign packages) x go_package drawn from 12 forms (path, path;name, bare name per directory, dash / dot / digit / keyword / mixed-case last elements, two files sharing an import path) x paths unset or source_relative; for every field outside a real oneof: pgsgo Type(f), the reference type by protoc-gen-go's fieldGoType rule (qualifier = package name of the defining file) and the struct field type in the parsed generated source; per file: PackageName / ImportPath / OutputPath against protogen's GoPackageName / GoImportPath / GeneratedFilenamePrefix; non-trivial = at least one message",
+        "level_text": "THEOREMS PENDING (level exploration until proved): Lean transcriptions of pgsgo (Type, importableTypeName, scalarType, optionPackage, PackageName, ImportPath, OutputPath) and of protoc-gen-go v1.23.0 (fieldGoType, goPackageOption, GoSanitized, filename prefix rules); Phi_C17: predicted type = reference type = type in the generated source; predicted package name / import path / output path = protogen's, on the stated domain (last element alphanumeric-initial over [A-Za-z0-9._-], at most one ';').",
+        "level_note": "Trusted: protogen + internal_gengo v1.23.0 as the reference; segment-level filepath model; divergences outside the stated domain (leading underscore / non-ASCII letters in the last element, 'a;b;c') are documented in DESIGN.md (F12), not claimed.",
     },
 }
